@@ -22,6 +22,10 @@ def plan(tier, seed):
 
     seqs = [{'shared_jit': list(p_)} for p_ in itertools.permutations(['2', '2.0', '2+0j', '-1', 'neg', '-1.0'], 3)]
     seqs += [{'shared_jit_inv': list(p_)} for p_ in itertools.permutations(['plain', 'precond', 'onestep'], 3)] + [{'shared_jit_inv': ['plain', 'precond']}, {'shared_jit_inv': ['precond', 'plain']}]
+    # a lazy inverse created under one configuration, first applied (eagerly and through jitted functions) under a second
+    # ambient configuration, compared under a third: jit and eager must agree, whatever is active around them
+    amb = [None, 'plain', 'onestep', 'precond']
+    seqs += [{'jit_ambient': [c, f, k]} for c in amb for f in amb for k in amb]
     return [
         {'name': 'shared_jit', 'target': TARGET, 'x64': False, 'cases': seqs, 'chunk': 10},
         {'name': 'x32', 'target': TARGET, 'x64': False, 'cases': U.cases(tier, ('f32',), modulus=8)},
@@ -95,6 +99,10 @@ def oracle(desc, op, exact):
         yrj = P.lib('reduce-under-filter_jit', lambda: equinox.filter_jit(lambda o, x: o.reduce().mv(x))(op, xs[0]))
         if P.actual_struct_sig(yrj) != P.actual_struct_sig(yr) or not P.close(P.flat(yrj), P.flat(yr), tol):
             probs.append(('reduce-under-jit', f'max diff {P.maxdiff(P.flat(yrj), P.flat(yr)):.4g}; structures {P.actual_struct_sig(yrj)} vs {P.actual_struct_sig(yr)}'))
+        # ... and inside a jit that closes over the operator (object identities between operands survive there)
+        yrc = P.lib('reduce-under-jit-closure', lambda: jax.jit(lambda x: op.reduce().mv(x))(xs[0]))
+        if P.actual_struct_sig(yrc) != P.actual_struct_sig(yr) or not P.close(P.flat(yrc), P.flat(yr), tol):
+            probs.append(('reduce-under-jit', f'closure: max diff {P.maxdiff(P.flat(yrc), P.flat(yr)):.4g}; structures {P.actual_struct_sig(yrc)} vs {P.actual_struct_sig(yr)}'))
     # order of first use: a FRESH copy of a specimen applied under jit first, eagerly afterwards
     if desc['form'] == 'single':
         fresh = P.lib('build', U._build, desc['a'], desc['dt'])
@@ -211,7 +219,55 @@ def shared_jit_inv_case(case):
     return probs
 
 
+def jit_ambient_case(case):
+    import contextlib
+
+    import equinox
+    import jax
+    import jax.numpy as jnp
+    import lineax as lx
+    import numpy as np
+
+    from furax import Config
+    from furax._base.dense import DenseBlockDiagonalOperator
+    from mc import probe as P
+
+    f32 = jnp.float32
+    a = jax.ShapeDtypeStruct((3,), f32)
+    S = DenseBlockDiagonalOperator(jnp.asarray([[4, 1, 0], [1, 3, 1], [0, 1, 2]], f32), a, 'ij,j->i')
+    Mi = DenseBlockDiagonalOperator(jnp.asarray(np.linalg.inv(np.array([[4, 1, 0], [1, 3, 1], [0, 1, 2.0]])), f32), a, 'ij,j->i')
+    cfgs = {'plain': dict(solver=lx.CG(rtol=1e-6, atol=1e-6, max_steps=2)),
+            'precond': dict(solver=lx.CG(rtol=1e-6, atol=1e-6, max_steps=2), solver_options={'preconditioner': Mi}),
+            'onestep': dict(solver=lx.CG(rtol=1e-6, atol=1e-6, max_steps=1))}
+
+    def under(name):
+        return contextlib.nullcontext() if name is None else Config(solver_callback=lambda s: None, **cfgs[name])
+
+    created, first, later = case['jit_ambient']
+    x = jnp.asarray([1.0, -2.0, 0.5], f32)
+    probs = []
+    with P.quiet():
+        with under(created):
+            inv = S.I
+            y0 = np.asarray(inv.mv(x))       # eager, under the configuration the inverse was created in
+        jc = jax.jit(lambda v: inv.mv(v))
+        fj = equinox.filter_jit(lambda o, v: o.mv(v))
+        with under(first):
+            firsts = {'eager': np.asarray(inv.mv(x)), 'jit-closure': np.asarray(jc(x)), 'filter_jit-argument': np.asarray(fj(inv, x))}
+        with under(later):
+            laters = {'eager': np.asarray(inv.mv(x)), 'jit-closure': np.asarray(jc(x)), 'filter_jit-argument': np.asarray(fj(inv, x))}
+    for when, res in (('first applied under', firsts), ('applied later under', laters)):
+        for label, y in res.items():
+            if not np.allclose(y, y0, rtol=1e-4, atol=1e-5):
+                probs.append(('jit-vs-eager-under-ambient-configuration',
+                              f'inverse created under {created!r}, {when} {first if res is firsts else later!r}: {label} gives {y} but eager application where it was created gave {y0}'))
+                return probs
+    return probs
+
+
 def shared_jit_case(case):
+    if 'jit_ambient' in case:
+        return jit_ambient_case(case)
     if 'shared_jit_inv' in case:
         return shared_jit_inv_case(case)
     """ONE filter_jit function receives, in the given order, operators that differ only in the Python kind of a scalar factor.
